@@ -106,6 +106,19 @@ def fit_case(rep, spec, index):
     best2 = find_best_fit(copy_, include_zero=include_zero, component_index=comp_index, **kw)
     rep.require("repeating the best-fit search on equal data gives identical coefficients", coeffs(best) == coeffs(best2), case,
                 {"first": str(coeffs(best))[:200], "second": str(coeffs(best2))[:200]})
+    # the same Measurements OBJECT edited in place (one re-measured value, same number of points), searched again: must equal
+    # the search on a fresh object holding the edited data
+    if len(data.data) >= 2 and rng.random() < 0.5:
+        j_ = rng.randrange(len(data.data))
+        data.data[j_].p = data.data[j_].p * rng.uniform(1.5, 3.0)
+        fresh_obj = Measurements(data=[type(m)(x=m.x, t=m.t, p=m.p) for m in data.data])
+        again = find_best_fit(data, include_zero=include_zero, component_index=comp_index, **kw)
+        ref_again = find_best_fit(fresh_obj, include_zero=include_zero, component_index=comp_index, **kw)
+        rep.require("after an in-place edit of the data the search equals a search on a fresh object with the edited data (bitwise)",
+                    coeffs(again) == coeffs(ref_again), dict(case, edited_point=j_), {"edited_object": str(coeffs(again))[:200], "fresh_object": str(coeffs(ref_again))[:200]})
+        fp0 = fingerprint.deep(data)
+        copy_ = fresh_obj
+        best = again
     # the grid the statement talks about
     if use_defaults:
         n_grid = list(range(min(5, round(len(data) ** 0.5))))
